@@ -87,6 +87,12 @@ CreateMPU(b, k, meta) ==
             /\ UNCHANGED <<bkts, objs, nvid, csz>>
             /\ Log("CreateMPU", a, OK([u |-> u]))
 
+\* an initiation the gateway refuses after it has started working on it (it asks for a legal
+\* hold in a bucket without object lock): nothing changes - in particular not the other
+\* uploads in progress for the same key
+CreateMPURefused(b, k) ==
+    Same /\ Log("CreateMPURefused", [b |-> b, k |-> k], Err("Refused"))
+
 \* a later upload of the same part number replaces the earlier one
 UploadPart(b, k, u, n, c) ==
     LET a == [b |-> b, k |-> k, u |-> u, n |-> n, c |-> c] IN
@@ -198,6 +204,7 @@ OpAll ==
     \/ \E k \in Keys, u \in Uploads : \E n \in IF M(k, u) THEN PartNums ELSE {1}, c \in IF M(k, u) THEN Contents ELSE {CHOOSE c \in Contents : TRUE} :
           UploadPart(TheBucket, k, u, n, c)
     \/ \E k \in Keys, u \in Uploads : \E n \in IF M(k, u) THEN PartNums ELSE {1} : M(k, u) /\ UploadPartBad(TheBucket, k, u, n, CHOOSE c \in Contents : TRUE)
+    \/ \E k \in Keys : (\E u \in Uploads : M(k, u)) /\ CreateMPURefused(TheBucket, k)
     \/ \E k \in Keys, u \in Uploads : \E n \in IF M(k, u) THEN PartNums ELSE {1}, sk \in IF M(k, u) THEN Keys ELSE {k},
              cls \in IF M(k, u) THEN RangeClasses ELSE {"none"} : UploadPartCopy(TheBucket, k, u, n, sk, cls)
     \/ \E k \in Keys, u \in Uploads : \E max \in IF M(k, u) THEN 0 .. 2 ELSE {0}, marker \in IF M(k, u) THEN 0 .. 2 ELSE {0} :
@@ -261,6 +268,8 @@ OpSim ==
     \/ \E u \in {RUp} : \E k \in {RKey(u)}, n \in {RPart(u)} : \E c \in {RContent(n)} : HaveUp /\ UploadPart(TheBucket, k, u, n, c)
     \* a failing re-upload of a part number that was uploaded before
     \/ \E u \in {RUp} : \E k \in {RKey(u)}, n \in {IF HaveParts(u) THEN Rnd(Present(u)) ELSE Rnd(PartNums)}, c \in {Rnd(Contents)} : HaveUp /\ HaveParts(u) /\ UploadPartBad(TheBucket, k, u, n, c)
+    \* a refused initiation for a key that has an upload in progress
+    \/ \E u \in {RUp} : \E k \in {RKey(u)} : Open # {} /\ Known(u) /\ Rnd(1 .. 2) = 1 /\ CreateMPURefused(TheBucket, k)
     \* re-upload of a part number
     \/ \E u \in {RUp} : \E k \in {RKey(u)}, n \in {IF HaveParts(u) THEN Rnd(Present(u)) ELSE Rnd(PartNums)}, c \in {Rnd(Contents)} : HaveUp /\ UploadPart(TheBucket, k, u, n, c)
     \/ \E u \in {RUp} : \E k \in {RKey(u)}, n \in {RPart(u)}, sk \in {RSrc}, cls \in {Rnd(RangeClasses)} : HaveUp /\ HaveSrc /\ UploadPartCopy(TheBucket, k, u, n, sk, cls)
@@ -306,7 +315,7 @@ MpView == <<bkts, objs, ups, nvid, nup, csz>>
 (****************************** properties ********************************)
 Stepped == Len(tr') = Len(tr) + 1
 Lst == tr'[Len(tr')]
-UpOps == {"CreateMPU", "UploadPart", "UploadPartCopy", "ListParts", "ListUploads", "Complete", "Abort"}
+UpOps == {"CreateMPU", "CreateMPURefused", "UploadPart", "UploadPartCopy", "ListParts", "ListUploads", "Complete", "Abort"}
 OnUpload == {"UploadPart", "UploadPartCopy", "ListParts", "Complete", "Abort"}    \* operations that name an upload id
 Succeeded == Lst.r.status = "ok"
 
